@@ -474,6 +474,15 @@ def boundary_sessions(env):
                     cases.append(session_case(DEFAULT_MAX, [c for c in (pre + pg[:1], pg[1:2 + tkl], pg[2 + tkl:] + get) if c], tag="ping-token"))
                     if not opts:
                         cases.append(session_case(DEFAULT_MAX, [stream[i:i + 1] for i in range(len(stream))], tag="ping-token"))
+    # (j) a frame that ends in a bare payload marker (options, ff, nothing): RFC 7252 section 3 calls it a format error,
+    # the shared option codec (C01's domain) reads an empty payload, and this check follows the code there (a position
+    # stated in DESIGN section 7 and in the claim) -- the rows pin that model, code and oracle agree on it
+    for code in (1, 69, 0, 226, 225):
+        for body in (b"\xff", b"\xb1a\xff", b"\x40\xff"):
+            fr = o_frame(code, b"\x09", body)
+            for pre in (b"", CSM0):
+                cases.append(session_case(DEFAULT_MAX, [pre + fr + get + ping], tag="bare-payload-marker"))
+                cases.append(session_case(DEFAULT_MAX, [c for c in (pre + fr[:-1], fr[-1:] + get, ping) if c], tag="bare-payload-marker"))
     # signalling with payload (diagnostic) and a Ping across a length boundary
     for code in (226, 228, 229):
         for L in (12, 13, 14):
